@@ -210,6 +210,8 @@ int64_t cmb_objectqueue_get(struct cmb_objectqueue *oqp, void **objectloc)
 
     cmb_logger_info(stdout, "Gets an object from %s, length now %" PRIu64,
                     rbp->name, oqp->length);
+    /* Queueing again within this call keeps the place earned by waiting since now */
+    const double since = cmb_time();
     while (true) {
         cmb_assert_debug(oqp->length <= oqp->capacity);
 
@@ -241,9 +243,9 @@ int64_t cmb_objectqueue_get(struct cmb_objectqueue *oqp, void **objectloc)
         /* Wait at the front door until some more becomes available  */
         cmb_assert_debug(oqp->length == 0u);
         cmb_logger_info(stdout, "Waiting for an object");
-        const int64_t sig = cmb_resourceguard_wait(&(oqp->front_guard),
-                                                   has_content,
-                                                   NULL);
+        const int64_t sig = cmb_resourceguard_wait_since(&(oqp->front_guard),
+                                                         has_content,
+                                                         NULL, since);
         if (sig == CMB_PROCESS_SUCCESS) {
             cmb_logger_info(stdout,"Trying again");
         }
@@ -267,6 +269,8 @@ int64_t cmb_objectqueue_put(struct cmb_objectqueue *oqp, void *object)
     cmb_assert_release(rbp->cookie == CMI_INITIALIZED);
     cmb_logger_info(stdout, "Puts object %p into %s, length %" PRIu64,
                     object, rbp->name, oqp->length);
+    /* Queueing again within this call keeps the place earned by waiting since now */
+    const double since = cmb_time();
     while (true) {
         cmb_assert_debug(oqp->length <= oqp->capacity);
         if (oqp->length < oqp->capacity) {
@@ -296,9 +300,9 @@ int64_t cmb_objectqueue_put(struct cmb_objectqueue *oqp, void *object)
         /* Wait at the back door until some more becomes available  */
         cmb_assert_debug(oqp->length == oqp->capacity);
         cmb_logger_info(stdout, "Waiting for space");
-        const int64_t sig = cmb_resourceguard_wait(&(oqp->rear_guard),
-                                                   has_space,
-                                                   NULL);
+        const int64_t sig = cmb_resourceguard_wait_since(&(oqp->rear_guard),
+                                                         has_space,
+                                                         NULL, since);
         if (sig == CMB_PROCESS_SUCCESS) {
             cmb_logger_info(stdout,"Trying again");
         }
